@@ -136,7 +136,7 @@ def run(db, cx):
     unit_vectors(db, cx)
 
 
-UNIT_CTORS = {C + "make_unit_vector", C + "from_spherical", C + "rotate"}
+UNIT_CTORS = {C + "make_unit_vector", C + "from_spherical", C + "rotate", C + "IsotropicDistribution::operator()"}
 
 
 def _unit_by_construction(db, f, ev_like):
